@@ -524,9 +524,10 @@ def time_evolve(psi: np.ndarray, hamiltonian: np.ndarray,
         # The right hand side is complex, so the initial value has to be too.
         solution = solve_ivp(ode_rhs, t_span,
                                 psi.flatten().astype(complex),
-                                method=mode.value,
-                                t_eval=[time_difference])
-        result_vector = solution.y[:,0]
+                                method=mode.value)
+        # The last column is the state at the end of the time span. For an
+        # empty time span it is the initial state.
+        result_vector = solution.y[:,-1]
     else:
         exponent = rhs_matrix * time_difference
         result_vector = fast_exp_action(exponent, psi.flatten(),
